@@ -6,7 +6,7 @@ Y == <<"s", "str", "y">>
 One == <<"s", "int", "1">>
 MQ == <<"m", <<"q", One>>>>
 SQ == <<"q", <<One>>>>
-Ids == { <<"s", "str", "a">>, <<"s", "str", "b">>, <<"s", "int", "1">>, <<"none">> }
+Ids == { <<"s", "str", "a">>, <<"s", "str", "b">>, <<"s", "str", "">>, <<"s", "int", "1">>, <<"none">> }
 Descs == { X, MQ, SQ, <<"none">> }
 Prices == { One, <<"none">> }
 Opt(name, v) == IF v = <<"none">> THEN <<>> ELSE <<name, v>>
